@@ -88,6 +88,9 @@ def chains(tier, rnd):
         def derive(tgt, src, mode):
             nonlocal literal_middle
             scols = list(tables[src])
+            if rnd.random() < 0.3:
+                # a bystander between the write and the read: its select-list scalar sub-query is analysed by a nested runner of its own
+                stmts.append(f"insert into zz.audit{len(stmts)} select (select max(q) from zz.other) as mx, y.d1 from db.s2 y")
             if mode == "star":
                 tables[tgt] = {c: set(tables[src][c]) for c in scols}
                 stmts.append(f"insert into {tgt} select * from {src}")
